@@ -19,6 +19,9 @@ use std::rc::Rc;
 #[global_allocator]
 static A: CountingAlloc = CountingAlloc;
 
+#[macro_use]
+mod st;
+
 // ------------------------------------------------------------------------------------------
 // the dynamic term builder's node type
 
@@ -248,6 +251,16 @@ trait Sort: Frame + 'static {
     fn interleave(a: Self, b: Self) -> Self;
     fn from_signed(x: Self::Sg) -> Self;
     fn from_float(x: Self::Fl) -> Self;
+    // statically typed stacks (st.rs) are compiled for a few sorts only
+    /// deepest static region built for this sort (0: none)
+    const ST_MAX: u64 = 0;
+    fn st_root<'a>(st: u64, _t: &Value, _cx: &mut Cx<'a>) -> Box<dyn st::StRoot<'a, Self> + 'a> {
+        panic!("static depth {} is not built for sort {}", st, Self::FMT)
+    }
+    /// an opaque source (oscillator, noise, ...) handed to `k` as its concrete type: f64 mono only
+    fn opaque<'a, K: st::Kont<'a, Self>>(_spec: &Value, _k: K) -> K::Out {
+        panic!("opaque sources yield f64 mono frames, not {}", Self::FMT)
+    }
 }
 fn g_from_json<F: Frame>(v: &Value) -> F
 where
@@ -286,8 +299,18 @@ where
     Frame::map(x, |s| s.to_sample::<Y::Sample>())
 }
 macro_rules! sort_impl {
-    ($($T:ty),*) => { $(
+    (@st dynamic) => {};
+    (@st st2) => {
+        const ST_MAX: u64 = 2;
+        fn st_root<'a>(st: u64, t: &Value, cx: &mut Cx<'a>) -> Box<dyn st::StRoot<'a, Self> + 'a> { st::build_static::<Self>(st, t, cx) }
+    };
+    (@st st2osc) => {
+        sort_impl!(@st st2);
+        fn opaque<'a, K: st::Kont<'a, Self>>(spec: &Value, k: K) -> K::Out { st::opaque_f64(spec, k) }
+    };
+    ($mode:ident: $($T:ty),*) => { $(
         impl Sort for $T {
+            sort_impl!(@st $mode);
             type Sg = <$T as Frame>::Signed;
             type Fl = <$T as Frame>::Float;
             const FMT: &'static str = <<$T as Frame>::Sample as Smp>::FMT;
@@ -308,9 +331,12 @@ macro_rules! sort_impl {
     )* };
 }
 // mono = the bare sample type (impl_frame_for_sample), wider = arrays
-sort_impl!(i8, [i8; 2], [i8; 3], [i8; 4], u8, [u8; 2], [u8; 3], [u8; 4], i16, [i16; 2], [i16; 3], [i16; 4],
-           f32, [f32; 2], [f32; 3], [f32; 4], f64, [f64; 2], [f64; 3], [f64; 4],
+sort_impl!(dynamic: i8, [i8; 2], [i8; 3], [i8; 4], u8, [u8; 2], [u8; 3], [u8; 4], i16, [i16; 3], [i16; 4],
+           f32, [f32; 2], [f32; 3], [f32; 4], [f64; 2], [f64; 3], [f64; 4],
            i32, [i32; 2], [i32; 3], [i32; 4], u32, [u32; 2], [u32; 3], [u32; 4], i64, [i64; 2], [i64; 3], [i64; 4]);
+// the sorts with statically typed stacks (spec: MC_Signals!StMax, gen: `st_max`)
+sort_impl!(st2: [i16; 2]);
+sort_impl!(st2osc: f64);
 
 macro_rules! with_sort {
     ($fmt:expr, $ch:expr, $F:ident => $body:expr) => {
@@ -463,10 +489,10 @@ fn build<'a, F: Sort>(t: &Value, path: &str, cx: &mut Cx<'a>) -> Dyn<'a, F> {
             let a = build::<F>(&t["a"], &pa, cx);
             Dyn::new(a.inspect(move |fr: &F| log.borrow_mut().push((id, F::raw_json as fn([u64; 4]) -> Value, fr.raw()))))
         }
-        "delay" => {
-            let n = t["n"].as_u64().expect("delay n") as usize;
-            Dyn::new(build::<F>(&t["a"], &pa, cx).delay(n))
-        }
+        // `delaymax`: usize::MAX - m leading frames (more than any execution observes)
+        "delay" | "delaymax" => Dyn::new(build::<F>(&t["a"], &pa, cx).delay(st::delay_count(t))),
+        // an opaque source (oscillator, noise, ...): boxed here, its concrete type inside a static region
+        "opq" => F::opaque(&cx.srcs[src_index(t)], KDyn),
         k => panic!("unknown term kind {}", k),
     }
 }
@@ -530,30 +556,24 @@ fn collected<T>(res: Option<(bool, [bool; 2])>, items: Vec<T>, hint: [u64; 3], h
     }
 }
 
-/// Apply one of the iterator consumers to `s` (the root by value, or `&mut root`).
+/// Apply one of the iterator consumers to `s` (the root by value, or `&mut root`; `S` is `Dyn` for
+/// a boxed term, the concrete stack type for a static one).
 fn consume<F: Sort, S: Signal<Frame = F>>(s: S, consumer: &str, n: usize, cap: usize) -> Collected {
     match consumer {
         "take" => {
             let mut it = s.take(n);
             let hint = take_hint(&it);
-            let mut items: Vec<F> = Vec::with_capacity(cap + 4);
-            let (res, h, _) = measured(|| catch(|| drain(&mut it, cap, &mut items)));
-            collected(res, items, hint, h, F::f_to_json)
+            drain_items(&mut it, cap, hint, F::f_to_json)
         }
-        "ue" => {
-            let mut it = s.until_exhausted();
-            let mut items: Vec<F> = Vec::with_capacity(cap + 4);
-            let (res, h, _) = measured(|| catch(|| drain(&mut it, cap, &mut items)));
-            collected(res, items, [0, 0, 0], h, F::f_to_json)
-        }
-        "il" => {
-            let mut it = s.into_interleaved_samples().into_iter();
-            let mut items: Vec<F::Sample> = Vec::with_capacity(cap + 4);
-            let (res, h, _) = measured(|| catch(|| drain(&mut it, cap, &mut items)));
-            collected(res, items, [0, 0, 0], h, F::s_to_json)
-        }
+        "ue" => drain_items(&mut s.until_exhausted(), cap, [0, 0, 0], F::f_to_json),
+        "il" => drain_items(&mut s.into_interleaved_samples().into_iter(), cap, [0, 0, 0], F::s_to_json),
         c => panic!("unknown consumer {}", c),
     }
+}
+fn drain_items<T>(it: &mut dyn Iterator<Item = T>, cap: usize, hint: [u64; 3], enc: fn(T) -> Value) -> Collected {
+    let mut items: Vec<T> = Vec::with_capacity(cap + 4);
+    let (res, h, _) = measured(|| catch(|| drain(it, cap, &mut items)));
+    collected(res, items, hint, h, enc)
 }
 fn take_hint<S: Signal>(it: &signal::Take<S>) -> [u64; 3] {
     let (lo, hi) = it.size_hint();
@@ -665,6 +685,39 @@ fn resume_one<S: Sort>(out: &mut Out, a: &Value, b: &mut Box<dyn Any>, pulls: &[
     );
 }
 
+/// boxes an opaque source for the dynamic builder
+struct KDyn;
+fn dyn_noclone<'a, F: Sort, S: Signal<Frame = F> + 'a>(s: S) -> Dyn<'a, F> {
+    Dyn::new_noclone(s)
+}
+impl<'a, F: Sort> st::Kont<'a, F> for KDyn {
+    type Out = Dyn<'a, F>;
+    on_all!(F, 'a, |self, s| dyn_noclone::<F, _>(s));
+}
+/// the term under test: boxed node by node (`Dyn`), or a statically typed stack (st.rs)
+enum Root<'a, F: Sort> {
+    Dy(Dyn<'a, F>),
+    St(Box<dyn st::StRoot<'a, F> + 'a>),
+}
+impl<'a, F: Sort> Root<'a, F> {
+    #[inline]
+    fn next(&mut self) -> F {
+        match self {
+            Root::Dy(d) => d.next(),
+            Root::St(s) => s.next(),
+        }
+    }
+    #[inline]
+    fn is_exhausted(&self) -> bool {
+        match self {
+            Root::Dy(d) => d.is_exhausted(),
+            Root::St(s) => s.is_exhausted(),
+        }
+    }
+}
+/// frames of an opaque source's twin logged at reset
+const TWIN_FRAMES: usize = 48;
+
 fn run_exec<F: Sort>(out: &mut Out, ex: &[Value])
 where
     F::Channels: Clone,
@@ -673,6 +726,9 @@ where
     let ch = cfg["ch"].as_u64().expect("ch") as usize;
     let srcs: &[Value] = cfg["srcs"].as_array().expect("srcs");
     let term = &cfg["term"];
+    // depth of the statically typed region along the receiver chain (0 / absent: every node boxed)
+    let st = cfg["st"].as_u64().unwrap_or(0);
+    assert!(st <= F::ST_MAX, "static depth {} is not built for sort {} x {}", st, F::FMT, ch);
     let ops = &ex[1..];
     let ns = srcs.len();
     let pulls: Vec<Rc<Cell<u32>>> = (0..ns).map(|_| Rc::new(Cell::new(0))).collect();
@@ -703,11 +759,17 @@ where
             insp: insp.clone(),
             paths: paths.clone(),
         };
-        let mut root: Option<Dyn<F>> = None;
+        let mut root: Option<Root<F>> = None;
         let mut reset_r = r_unit();
         let mut exh0 = false;
+        // opaque sources: the first frames of a twin built from the same description
+        let twin: Vec<Value> = srcs
+            .iter()
+            .map(|sp| if sp["kind"] == "opaque" { Value::Array(catch(|| F::opaque(sp, st::KTwin(TWIN_FRAMES))).unwrap_or_default()) } else { json!([]) })
+            .collect();
         if !lift_first {
-            match catch(|| build::<F>(term, "r", &mut cx)) {
+            let made = catch(|| if st == 0 { Root::Dy(build::<F>(term, "r", &mut cx)) } else { Root::St(F::st_root(st, term, &mut cx)) });
+            match made {
                 Some(d) => {
                     exh0 = catch(|| d.is_exhausted()).unwrap_or(false);
                     root = Some(d);
@@ -718,7 +780,7 @@ where
         let built = root.is_some();
         out.line(&json!({"ev": "reset", "comp": "signal", "cfg": cfg, "r": reset_r,
                          "o": {"ok": built || lift_first, "built": built, "exh": exh0,
-                               "pulls": counts(&pulls), "it": counts(&iters)}}));
+                               "pulls": counts(&pulls), "it": counts(&iters), "twin": twin}}));
         if !built && !lift_first {
             return;
         }
@@ -759,12 +821,14 @@ where
                     // the root is replaced by its clone (the original is dropped): it must carry on
                     // exactly where the original stood
                     let res = {
-                        let r = root.as_ref().expect("clone of a consumed term");
-                        catch(|| r.clone())
+                        match root.as_ref().expect("clone of a consumed term") {
+                            Root::Dy(r) => catch(|| r.clone()),
+                            Root::St(_) => panic!("a static stack is not cloned"),
+                        }
                     };
                     let ok = res.is_some();
                     if let Some(c) = res {
-                        root = Some(c);
+                        root = Some(Root::Dy(c));
                     }
                     out.ev("clone", a.clone(), if ok { r_unit() } else { r_panic() },
                            json!({"ok": ok, "pulls": counts(&pulls), "it": counts(&iters)}), [0, 0, 0]);
@@ -790,11 +854,16 @@ where
                         let it = CountIter { data, pos: 0, calls: iters[j].clone(), ended: false };
                         let pj = pulls[j].clone();
                         let cxr = &mut cx;
+                        // inside a static region the FromIterator is used as it came (no pull counter)
+                        let raw = st::chain_depth(term, j).map_or(false, |d| d < st);
                         let made = catch(move || {
                             signal::lift(it, move |sig| {
-                                let d: Dyn<'static, F> = Dyn::new(Counted { inner: sig, calls: pj });
-                                cxr.lifted = Some((j, Box::new(d) as Box<dyn Any>));
-                                build::<F>(term, "r", cxr)
+                                cxr.lifted = Some((j, if raw {
+                                    Box::new(sig) as Box<dyn Any>
+                                } else {
+                                    Box::new(Dyn::<'static, F>::new(Counted { inner: sig, calls: pj })) as Box<dyn Any>
+                                }));
+                                if st == 0 { build::<F>(term, "r", cxr) } else { Dyn::new_noclone(st::StSig(F::st_root(st, term, cxr))) }
                             })
                         });
                         match made {
@@ -807,11 +876,20 @@ where
                         }
                     } else if consumer.ends_with("_clone") {
                         // (`&mut S` is not Clone: these consumers always take the root by value)
-                        consume_clone::<F, _>(root.take().expect("collect on a consumed term"), consumer, n, k, cap)
+                        match root.take().expect("collect on a consumed term") {
+                            Root::Dy(d) => consume_clone::<F, _>(d, consumer, n, k, cap),
+                            Root::St(_) => panic!("a static stack is not cloned"),
+                        }
                     } else if byref {
-                        consume::<F, _>(Signal::by_ref(root.as_mut().expect("collect on a consumed term")), consumer, n, cap)
+                        match root.as_mut().expect("collect on a consumed term") {
+                            Root::Dy(d) => consume::<F, _>(Signal::by_ref(d), consumer, n, cap),
+                            Root::St(s) => s.consume_mut(consumer, n, cap),
+                        }
                     } else {
-                        consume::<F, _>(root.take().expect("collect on a consumed term"), consumer, n, cap)
+                        match root.take().expect("collect on a consumed term") {
+                            Root::Dy(d) => consume::<F, _>(d, consumer, n, cap),
+                            Root::St(s) => s.consume(consumer, n, cap),
+                        }
                     };
                     let seen = insp.borrow().len();
                     let mut o = json!({"ok": c.ok, "after": [c.after[0], c.after[1]], "capped": c.capped, "hint": c.hint,
@@ -859,6 +937,13 @@ struct Gen {
     srcs: Vec<Value>,
     lens: Vec<usize>,
     max_len: usize,
+    /// adaptor kinds forced on the next nodes along the receiver chain (selector codes of `term`;
+    /// 16 = zip_map with the addamp closure), and the leaf kind forced at its end
+    force: std::collections::VecDeque<u64>,
+    force_leaf: Option<&'static str>,
+    /// values that tell a composition of two roundings / truncations from a single folded one: float
+    /// samples with all mantissa bits random, gains that are neither 0 nor a power of two
+    sharp: bool,
 }
 fn signed_of(f: &str) -> &'static str {
     match f {
@@ -925,7 +1010,7 @@ impl Gen {
     /// a random amplitude with |x| <= b: mostly short dyadics, sometimes full precision
     fn amp(&mut self, f: &str, b: f64) -> f64 {
         let b = b.max(0.0);
-        if is_float(f) && self.rng.chance(1, 5) {
+        if is_float(f) && (self.sharp || self.rng.chance(1, 5)) {
             let u = (self.rng.next() >> 11) as f64 / (1u64 << 53) as f64;
             return (2.0 * u - 1.0) * b;
         }
@@ -947,6 +1032,13 @@ impl Gen {
         let x = self.amp(f, b);
         enc(f, if abs { x.abs() } else { x })
     }
+    fn gain(&mut self) -> f64 {
+        if self.sharp {
+            *self.rng.pick(&[-11.0, -9.0, -7.0, -6.0, -5.0, -3.0, 3.0, 5.0, 6.0, 7.0, 9.0, 10.0, 11.0]) / 8.0
+        } else {
+            self.rng.range(-12, 12) as f64 / 8.0
+        }
+    }
     fn frame(&mut self, f: &str, b: f64) -> Value {
         Value::Array((0..self.ch).map(|_| self.val(f, b, false)).collect())
     }
@@ -966,8 +1058,32 @@ impl Gen {
         self.lens.push(len);
         self.srcs.len()
     }
+    /// an opaque source (oscillator, noise, ...: f64 mono); its frames are whatever its twin yields
+    fn new_opaque(&mut self, what: &str) -> usize {
+        let rate = *self.rng.pick(&[8000.0, 44100.0, 48000.0, 96000.0]);
+        let hz = *self.rng.pick(&[440.0, 1234.5, 0.125, 19999.0, 261.6255653005986]);
+        let seed = self.rng.below(1 << 32);
+        self.srcs.push(json!({"fmt": "f64", "kind": "opaque", "what": what, "xs": [],
+                              "p": {"rate": f64f(rate), "hz": f64f(hz), "seed": seed}}));
+        self.lens.push(usize::MAX);
+        self.srcs.len()
+    }
     fn leaf(&mut self, f: &str, b: f64) -> Value {
-        match self.rng.below(20) {
+        let forced = self.force_leaf.take();
+        let pickd = match forced {
+            Some("src") => 0,
+            Some("srcs") => 9,
+            Some("byref") => 13,
+            Some("eq") => 17,
+            Some("gen") => 18,
+            Some("genmut") => 19,
+            Some(what) => {
+                assert!(f == "f64" && self.ch == 1, "opaque sources yield f64 mono");
+                return json!({"k": "opq", "j": self.new_opaque(what)});
+            }
+            None => self.rng.below(20),
+        };
+        match pickd {
             0..=8 => json!({"k": "src", "j": self.new_source(f, b, false)}),
             9..=12 => json!({"k": "srcs", "j": self.new_source(f, b, true)}),
             13..=16 => {
@@ -986,12 +1102,14 @@ impl Gen {
     /// (b < 1: every intermediate result is representable, every float -> int conversion in [-1, 1))
     fn term(&mut self, f: &str, d: u32, b: f64) -> Value {
         let eps = 2.0 / half(f).max(64.0);
-        if d == 0 || self.rng.chance(1, 12) {
+        let forced = self.force.pop_front();
+        if forced.is_none() && (d == 0 || self.rng.chance(1, 12)) {
             return self.leaf(f, b);
         }
+        let d = d.max(1);
         let sf = signed_of(f);
         let ff = float_of(f);
-        match self.rng.below(16) {
+        match forced.unwrap_or_else(|| self.rng.below(16)) {
             0 => {
                 let fns: &[&str] = if b > 3.0 * eps { &["id", "rev", "inv"] } else { &["id", "rev"] };
                 let fname = *self.rng.pick(fns);
@@ -1004,16 +1122,16 @@ impl Gen {
                 let fname = *self.rng.pick(&["first", "second", "interleave"]);
                 json!({"k": "zipmap", "f": fname, "a": self.term(f, d - 1, b), "b": self.term(f, d - 1, b)})
             }
-            4 | 5 => {
+            sel @ (4 | 5 | 16) => {
                 let p = 0.3 + 0.4 * (self.rng.below(101) as f64 / 100.0);
-                let k = if self.rng.chance(1, 4) { "zipmap" } else { "add" };
+                let k = if sel == 16 || (forced.is_none() && self.rng.chance(1, 4)) { "zipmap" } else { "add" };
                 let a = self.term(f, d - 1, b * p - eps);
                 let bb = self.term(sf, d - 1, b * (1.0 - p) - eps);
                 if k == "zipmap" { json!({"k": k, "f": "addamp", "a": a, "b": bb}) } else { json!({"k": k, "a": a, "b": bb}) }
             }
             6 | 7 => json!({"k": "mul", "a": self.term(f, d - 1, b), "b": self.term(ff, d - 1, 1.0)}),
             8 => {
-                let g = self.rng.range(-12, 12) as f64 / 8.0;
+                let g = self.gain();
                 json!({"k": "scale", "g": enc(ff, g), "a": self.term(f, d - 1, b / g.abs().max(1.0))})
             }
             9 => {
@@ -1021,7 +1139,7 @@ impl Gen {
                 json!({"k": "offset", "o": o, "a": self.term(f, d - 1, 0.75 * b - eps)})
             }
             10 => {
-                let gs: Vec<f64> = (0..self.ch).map(|_| self.rng.range(-12, 12) as f64 / 8.0).collect();
+                let gs: Vec<f64> = (0..self.ch).map(|_| self.gain()).collect();
                 let m = gs.iter().fold(1.0f64, |m, g| m.max(g.abs()));
                 json!({"k": "scalepc", "gs": gs.iter().map(|g| enc(ff, *g)).collect::<Vec<_>>(), "a": self.term(f, d - 1, b / m)})
             }
@@ -1042,13 +1160,14 @@ impl Gen {
 fn est_len(t: &Value, lens: &[usize]) -> Option<usize> {
     match t["k"].as_str().unwrap() {
         "src" | "srcs" | "byref" => Some(lens[src_index(t)]),
-        "eq" | "gen" | "genmut" => None,
+        "eq" | "gen" | "genmut" | "opq" => None,
         "zipmap" | "add" | "mul" => match (est_len(&t["a"], lens), est_len(&t["b"], lens)) {
             (Some(x), Some(y)) => Some(x.min(y)),
             (x, None) => x,
             (None, y) => y,
         },
         "delay" => est_len(&t["a"], lens).map(|x| x + t["n"].as_u64().unwrap() as usize),
+        "delaymax" => None,
         _ => est_len(&t["a"], lens),
     }
 }
@@ -1076,16 +1195,107 @@ fn lift_candidates(t: &Value, f: &str, root: &str, srcs: &[Value], out: &mut Vec
             lift_candidates(&t["a"], f, root, srcs, out);
             lift_candidates(&t["b"], float_of(f), root, srcs, out)
         }
-        "srcs" | "byref" | "eq" | "gen" | "genmut" => {}
+        "srcs" | "byref" | "eq" | "gen" | "genmut" | "opq" => {}
         _ => lift_candidates(&t["a"], f, root, srcs, out),
     }
 }
 
+/// one execution over `term` (sources in g.srcs): plain calls, a drop with resumes, or a consumer
+fn script(g: &mut Gen, fmt: &str, st: u64, term: &Value) -> Vec<Value> {
+    let x0 = json!({"x": 0});
+    let len = est_len(&term, &g.lens);
+    let mut ids = Vec::new();
+    collect_byrefs(&term, &mut ids);
+    let mut ex = vec![json!({"ev": "reset", "comp": "signal",
+                             "cfg": {"ch": g.ch, "fmt": fmt, "st": st, "srcs": g.srcs.clone(), "term": term.clone()}})];
+    let horizon = len.map_or(6, |l| l + 3).min(60);
+    // `&mut S` is not Clone; static stacks and (boxed) opaque sources are not cloned
+    let clonable = ids.is_empty() && st == 0 && !g.srcs.iter().any(|s| s["kind"] == "opaque");
+    let resumes = |g: &mut Gen, ex: &mut Vec<Value>| {
+        for &j in &ids {
+            for _ in 0..(1 + g.rng.below(4)) {
+                ex.push(json!({"ev": "resume", "a": {"src": j + 1}}));
+            }
+        }
+    };
+    match g.rng.below(10) {
+        0..=3 => {
+            // plain calls, is_exhausted sprinkled in
+            for _ in 0..horizon {
+                if g.rng.chance(1, 4) {
+                    ex.push(json!({"ev": "is_exhausted", "a": x0}));
+                }
+                if clonable && g.rng.chance(1, 6) {
+                    ex.push(json!({"ev": "clone", "a": x0}));
+                }
+                ex.push(json!({"ev": "next", "a": x0}));
+            }
+            ex.push(json!({"ev": "is_exhausted", "a": x0}));
+        }
+        4 => {
+            let d = g.rng.below(horizon as u64 + 1);
+            for _ in 0..d {
+                ex.push(json!({"ev": "next", "a": x0}));
+            }
+            ex.push(json!({"ev": "drop", "a": x0}));
+            resumes(g, &mut ex);
+        }
+        _ => {
+            let mut cands = Vec::new();
+            lift_candidates(&term, fmt, fmt, &g.srcs, &mut cands);
+            let n0 = g.rng.below(4);
+            let mut kinds = vec!["take"];
+            if len.is_some() {
+                kinds.push("ue");
+                kinds.push("il");
+                if !cands.is_empty() {
+                    kinds.push("lift");
+                }
+            }
+            if clonable {
+                kinds.push("take_clone");
+                if len.is_some() {
+                    kinds.push("ue_clone");
+                    kinds.push("il_clone");
+                    kinds.push("il_clone");
+                }
+            }
+            let c = *g.rng.pick(&kinds);
+            let cloning = c.ends_with("_clone");
+            let byref = c != "lift" && !cloning && g.rng.chance(1, 3);
+            if c != "lift" {
+                for _ in 0..n0 {
+                    ex.push(json!({"ev": "next", "a": x0}));
+                }
+            }
+            let n = g.rng.below(horizon as u64 + 2);
+            let j = if c == "lift" { *g.rng.pick(&cands) } else { 0 };
+            // where the clone is taken: anywhere in the stream (for interleaved samples mostly inside a frame)
+            let total = match c {
+                "take_clone" => n,
+                "ue_clone" => len.unwrap_or(0) as u64,
+                "il_clone" => (len.unwrap_or(0) * g.ch) as u64,
+                _ => 0,
+            };
+            let k = if cloning { g.rng.below(total + 2) } else { 0 };
+            ex.push(json!({"ev": "collect", "a": {"consumer": c, "n": n, "k": k, "cap": 400, "byref": byref, "j": j}}));
+            if byref {
+                for _ in 0..(1 + g.rng.below(3)) {
+                    ex.push(json!({"ev": "next", "a": x0}));
+                }
+                ex.push(json!({"ev": "is_exhausted", "a": x0}));
+            } else {
+                resumes(g, &mut ex);
+            }
+        }
+    }
+    ex
+}
+
 fn gen(seed: u64, size: &str, path: &str) {
     let n_exec = if size == "thorough" { 4000 } else { 300 };
-    let mut g = Gen { rng: Rng::new(seed), ch: 1, srcs: Vec::new(), lens: Vec::new(), max_len: 40 };
+    let mut g = Gen { rng: Rng::new(seed), ch: 1, srcs: Vec::new(), lens: Vec::new(), max_len: 40, force: Default::default(), force_leaf: None, sharp: false };
     let mut execs = Vec::new();
-    let x0 = json!({"x": 0});
     for e in 0..n_exec {
         // every fourth execution has a wide integer root (i32, i64, u32 in turn)
         let fmt = if e % 4 == 3 { ["i32", "i64", "u32"][(e / 4) % 3] } else { ["i16", "u8", "f64"][(e - e / 4) % 3] };
@@ -1094,96 +1304,181 @@ fn gen(seed: u64, size: &str, path: &str) {
         g.lens.clear();
         let depth = 1 + g.rng.below(5) as u32;
         let term = g.term(fmt, depth, 0.9);
-        let len = est_len(&term, &g.lens);
-        let mut ids = Vec::new();
-        collect_byrefs(&term, &mut ids);
-        let mut ex = vec![json!({"ev": "reset", "comp": "signal",
-                                 "cfg": {"ch": g.ch, "fmt": fmt, "srcs": g.srcs.clone(), "term": term.clone()}})];
-        let horizon = len.map_or(6, |l| l + 3).min(60);
-        let clonable = ids.is_empty(); // `&mut S` is not Clone
-        let resumes = |g: &mut Gen, ex: &mut Vec<Value>| {
-            for &j in &ids {
-                for _ in 0..(1 + g.rng.below(4)) {
-                    ex.push(json!({"ev": "resume", "a": {"src": j + 1}}));
-                }
-            }
-        };
-        match g.rng.below(10) {
-            0..=3 => {
-                // plain calls, is_exhausted sprinkled in
-                for _ in 0..horizon {
-                    if g.rng.chance(1, 4) {
-                        ex.push(json!({"ev": "is_exhausted", "a": x0}));
-                    }
-                    if clonable && g.rng.chance(1, 6) {
-                        ex.push(json!({"ev": "clone", "a": x0}));
-                    }
-                    ex.push(json!({"ev": "next", "a": x0}));
-                }
-                ex.push(json!({"ev": "is_exhausted", "a": x0}));
-            }
-            4 => {
-                let d = g.rng.below(horizon as u64 + 1);
-                for _ in 0..d {
-                    ex.push(json!({"ev": "next", "a": x0}));
-                }
-                ex.push(json!({"ev": "drop", "a": x0}));
-                resumes(&mut g, &mut ex);
-            }
-            _ => {
-                let mut cands = Vec::new();
-                lift_candidates(&term, fmt, fmt, &g.srcs, &mut cands);
-                let n0 = g.rng.below(4);
-                let mut kinds = vec!["take"];
-                if len.is_some() {
-                    kinds.push("ue");
-                    kinds.push("il");
-                    if !cands.is_empty() {
-                        kinds.push("lift");
-                    }
-                }
-                if clonable {
-                    kinds.push("take_clone");
-                    if len.is_some() {
-                        kinds.push("ue_clone");
-                        kinds.push("il_clone");
-                        kinds.push("il_clone");
-                    }
-                }
-                let c = *g.rng.pick(&kinds);
-                let cloning = c.ends_with("_clone");
-                let byref = c != "lift" && !cloning && g.rng.chance(1, 3);
-                if c != "lift" {
-                    for _ in 0..n0 {
-                        ex.push(json!({"ev": "next", "a": x0}));
-                    }
-                }
-                let n = g.rng.below(horizon as u64 + 2);
-                let j = if c == "lift" { *g.rng.pick(&cands) } else { 0 };
-                // where the clone is taken: anywhere in the stream (for interleaved samples mostly inside a frame)
-                let total = match c {
-                    "take_clone" => n,
-                    "ue_clone" => len.unwrap_or(0) as u64,
-                    "il_clone" => (len.unwrap_or(0) * g.ch) as u64,
-                    _ => 0,
-                };
-                let k = if cloning { g.rng.below(total + 2) } else { 0 };
-                ex.push(json!({"ev": "collect", "a": {"consumer": c, "n": n, "k": k, "cap": 400, "byref": byref, "j": j}}));
-                if byref {
-                    for _ in 0..(1 + g.rng.below(3)) {
-                        ex.push(json!({"ev": "next", "a": x0}));
-                    }
-                    ex.push(json!({"ev": "is_exhausted", "a": x0}));
-                } else {
-                    resumes(&mut g, &mut ex);
-                }
-            }
-        }
+        let ex = script(&mut g, fmt, 0, &term);
         execs.push(ex);
     }
     gen_extremes(&mut g, size == "thorough", &mut execs);
     gen_clones(size == "thorough", &mut execs);
+    gen_static(seed, size == "thorough", &mut execs);
     write_stimuli(path, &execs);
+}
+
+/// Statically typed stacks (st.rs): the receiver chain of the term is built without boxing, `st`
+/// levels deep, so that each adaptor method is called on the concrete type below it.  Own random
+/// stream (the executions of `gen` stay what they were).  Families:
+///   A  every ordered pair (method, receiver adaptor), random parameters and contents, st = 2
+///   B  every method on every source type (st = 2), and the consumers / by_ref on `Adaptor<boxed>` (st = 1)
+///   C  every source type on its own (st = 1: the consumers are called on it)
+///   D  opaque sources (oscillators, noise, phase / step signals; f64 mono): alone, under every method,
+///      and boxed (st = 0); the spec takes their frames from a twin recorded at reset
+///   E  the far end of delay's parameter range (delaymax = usize::MAX - m), stacked both ways round
+///   F  deeper random terms with a static receiver chain
+///   G  pairs of the same family (gain on gain, offset on offset, clip on clip, delay on delay, map on
+///      map) over sources of 8+ frames with "sharp" values: two roundings / truncations in a row differ
+///      from one folded operation
+fn gen_static(seed: u64, thorough: bool, execs: &mut Vec<Vec<Value>>) {
+    let mut g = Gen { rng: Rng::new(seed ^ 0x5354_4154_4943), ch: 1, srcs: Vec::new(), lens: Vec::new(), max_len: 20,
+                      force: Default::default(), force_leaf: None, sharp: false };
+    // selector codes of Gen::term, one per adaptor method (16: zip_map with the addamp closure)
+    const SELS: [u64; 14] = [0, 1, 2, 3, 16, 4, 6, 8, 9, 10, 11, 12, 13, 14];
+    const LEAVES: [&str; 6] = ["src", "srcs", "byref", "eq", "gen", "genmut"];
+    const OPAQUE: [&str; 8] = ["const_hz", "hz", "phase", "sine", "saw", "square", "noise_simplex", "noise"];
+    let sorts: [(&str, usize); 2] = [("i16", 2), ("f64", 1)]; // Sort::ST_MAX > 0
+    let reps = if thorough { 3 } else { 1 };
+    let x0 = json!({"x": 0});
+    let one = |g: &mut Gen, fmt: &str, ch: usize, st: u64, force: &[u64], leaf: Option<&'static str>, depth: u32, execs: &mut Vec<Vec<Value>>| {
+        g.ch = ch;
+        g.srcs.clear();
+        g.lens.clear();
+        g.force = force.iter().copied().collect();
+        g.force_leaf = leaf;
+        let term = g.term(fmt, depth, 0.9);
+        g.force.clear();
+        g.force_leaf = None;
+        let ex = script(g, fmt, st, &term);
+        execs.push(ex);
+    };
+    for &(fmt, ch) in &sorts {
+        for _ in 0..reps {
+            // A
+            for &s1 in &SELS {
+                for &s2 in &SELS {
+                    one(&mut g, fmt, ch, 2, &[s1, s2], None, 2, execs);
+                }
+            }
+            // B
+            for &s1 in &SELS {
+                for &lf in &LEAVES {
+                    one(&mut g, fmt, ch, 2, &[s1], Some(lf), 1, execs);
+                    one(&mut g, fmt, ch, 1, &[s1], Some(lf), 1, execs);
+                }
+            }
+            // C
+            for &lf in &LEAVES {
+                for _ in 0..3 {
+                    one(&mut g, fmt, ch, 1, &[], Some(lf), 0, execs);
+                }
+            }
+        }
+    }
+    // D
+    for _ in 0..reps {
+        for &w in &OPAQUE {
+            one(&mut g, "f64", 1, 1, &[], Some(w), 0, execs);
+            one(&mut g, "f64", 1, 0, &[], Some(w), 0, execs);
+            for &s1 in &SELS {
+                one(&mut g, "f64", 1, 2, &[s1], Some(w), 1, execs);
+            }
+            one(&mut g, "f64", 1, 1, &[8], Some(w), 1, execs);
+            let sx = *g.rng.pick(&SELS);
+            one(&mut g, "f64", 1, 0, &[sx], Some(w), 1, execs);
+        }
+    }
+    // E
+    for &(fmt, ch) in &sorts {
+        g.ch = ch;
+        let dm = |m: u64, a: Value| json!({"k": "delaymax", "m": m, "a": a});
+        let dl = |n: u64, a: Value| json!({"k": "delay", "n": n, "a": a});
+        for (i, lf) in ["src", "byref", "gen"].iter().enumerate() {
+            let mut terms = Vec::new();
+            let mut srcs = Vec::new();
+            for v in 0..9 {
+                g.srcs.clear();
+                g.lens.clear();
+                g.force_leaf = Some(*lf);
+                let a = g.leaf(fmt, 0.9);
+                let m = g.rng.below(3);
+                let n = g.rng.below(4);
+                terms.push(match v {
+                    0 => dm(0, a),
+                    1 => dl(1, dm(0, a)),
+                    2 => dl(n, dm(m, a)),
+                    3 => dm(0, dl(1, a)),
+                    4 => dm(m, dl(n, a)),
+                    5 => dm(0, dm(0, a)),
+                    6 => dm(m, dm(1, a)),
+                    7 => dl(0, dl(0, a)),
+                    _ => dl(n, dl(1 + m, a)),
+                });
+                srcs.push(g.srcs.clone());
+            }
+            for (v, (term, sr)) in terms.into_iter().zip(srcs).enumerate() {
+                for st in [2u64, 0] {
+                    if st == 0 && (v + i) % 2 == 1 {
+                        continue;
+                    }
+                    let mut ex = vec![json!({"ev": "reset", "comp": "signal", "cfg": {"ch": ch, "fmt": fmt, "st": st, "srcs": sr.clone(), "term": term.clone()}})];
+                    ex.push(json!({"ev": "is_exhausted", "a": x0}));
+                    for _ in 0..5 {
+                        ex.push(json!({"ev": "next", "a": x0}));
+                    }
+                    ex.push(json!({"ev": "is_exhausted", "a": x0}));
+                    if v % 3 == 0 {
+                        ex.push(json!({"ev": "collect", "a": {"consumer": "take", "n": 3, "k": 0, "cap": 64, "byref": true, "j": 0}}));
+                    }
+                    if *lf == "byref" && v % 2 == 1 {
+                        ex.push(json!({"ev": "drop", "a": x0}));
+                        ex.push(json!({"ev": "resume", "a": {"src": 1}}));
+                        ex.push(json!({"ev": "resume", "a": {"src": 1}}));
+                    }
+                    execs.push(ex);
+                }
+            }
+        }
+    }
+    // G
+    let fams: [&[u64]; 5] = [&[8, 10, 6], &[9, 11, 4, 16], &[12], &[14], &[0]];
+    for &(fmt, ch) in &sorts {
+        for fam in &fams {
+            for &s1 in fam.iter() {
+                for &s2 in fam.iter() {
+                    for r in 0..(if thorough { 8 } else { 3 }) {
+                        g.ch = ch;
+                        g.srcs.clear();
+                        g.lens.clear();
+                        g.sharp = true;
+                        g.force = [s1, s2].into_iter().collect();
+                        // (the receiver chain ends in a from_iter source of 8..12 frames)
+                        let term = loop {
+                            g.srcs.clear();
+                            g.lens.clear();
+                            g.force = [s1, s2].into_iter().collect();
+                            g.force_leaf = Some("src");
+                            let t = g.term(fmt, 2, 0.9);
+                            g.force_leaf = None;
+                            if est_len(&t, &g.lens).map_or(false, |l| (8..=14).contains(&l)) {
+                                break t;
+                            }
+                        };
+                        g.sharp = false;
+                        let st = if r % 3 == 2 { 0 } else { 2 };
+                        let mut ex = vec![json!({"ev": "reset", "comp": "signal", "cfg": {"ch": ch, "fmt": fmt, "st": st, "srcs": g.srcs.clone(), "term": term}})];
+                        for _ in 0..(est_len(&ex[0]["cfg"]["term"], &g.lens).unwrap() + 2) {
+                            ex.push(json!({"ev": "next", "a": x0}));
+                        }
+                        ex.push(json!({"ev": "is_exhausted", "a": x0}));
+                        execs.push(ex);
+                    }
+                }
+            }
+        }
+    }
+    // F
+    for e in 0..(if thorough { 400 } else { 40 }) {
+        let (fmt, ch) = sorts[e % 2];
+        let depth = 2 + g.rng.below(4) as u32;
+        one(&mut g, fmt, ch, 1 + (e as u64 / 2) % 2, &[], None, depth, execs);
+    }
 }
 
 /// Sources holding the extreme samples of the format (most negative, most positive, equilibrium and
